@@ -557,6 +557,24 @@ Theorem C03_raising_accept_callback_starves : forall pc c h,
 Proof. exact hs_raising_callback_starves. Qed.
 Print Assumptions C03_raising_accept_callback_starves.
 
+(* ... hence the claim "linked handshake: every job _ack accepted gets an answer" is FALSE of
+   the code -- known finding F-C03-2, signature
+   C03:raising-accept-callback-leaves-worker-unanswered, raised on every run from an enumerated
+   handshake case on the real code.  The strongest true statement is C03_handshake_decision
+   (under [cb_returns]). *)
+Theorem C03_accepted_job_answered_refuted : ~ accepted_job_answered.
+Proof. exact accepted_job_answered_refuted. Qed.
+Print Assumptions C03_accepted_job_answered_refuted.
+
+Theorem C03_raising_accept_callback_witness :
+  let wl := w_events o1_cfg (hs_ins o1_pc true o1_cfg [RMsg o1_job; RShutdown]) in
+  wl = [EInq; ENow; EPut (mk_msg ACK 20 None (PAckP 200 77 (Some 9))); ESyn] /\
+  w_exit o1_cfg (hs_ins o1_pc true o1_cfg [RMsg o1_job; RShutdown]) = XStarved /\
+  hs_parent_x o1_pc 20 false true false wl =
+  (mk_ar true false (Some 77) (Some 200) false true, [OTimeoutSet; OCbAccept 77 200; OAcked]).
+Proof. exact raising_accept_callback_witness. Qed.
+Print Assumptions C03_raising_accept_callback_witness.
+
 (* witness: linked handshake, the accept callback cancels its own job: ACK, RUN, READY *)
 Example C03_late_cancel_witness :
   let pc := mk_pcfg true true true true true in
